@@ -323,11 +323,15 @@ func (x *Exec) panicConds(st *State) []*Term {
 func (x *Exec) doPanic(st *State, what string, pos token.Pos) ([]*State, bool) {
 	spec := x.vc.spec
 	src := x.prog.Fset.Position(pos).String()
+	if len(st.frames) == 1 {
+		x.pendingReplay = x.replayInfo(st, nil, "panics")
+	}
 	if spec.NoPanic {
 		x.oblige(st, "safe.nopanic", "", nil, TFalse, src)
 	} else if conds := x.panicConds(st); conds != nil {
 		x.oblige(st, "panics.justified", "", nil, Or(conds...), src)
 	}
+	x.pendingReplay = nil
 	return nil, false
 }
 
